@@ -60,10 +60,46 @@ Theorem C12_commitment_sound :
   (1 <= length (g_row_roots D NP MP g))%nat /\
   (length (g_sproofs D NP MP g) <= length (g_roots D NP MP g))%nat /\
   g_end_row D NP MP g - g_start_row D NP MP g + 1 = Z.of_nat (length (g_row_roots D NP MP g)) /\
+  g_start_row D NP MP g <= g_end_row D NP MP g /\
   existsb is_none (g_sproofs D NP MP g) = false /\ existsb is_none (g_row_proofs D NP MP g) = false /\
   t_empty root = false /\ c_empty com = false.
 Proof. exact commitment_sound. Qed.
 Print Assumptions C12_commitment_sound.
+
+(** The row range.  The node's own [Validate] counts rows in uint32 ([row_count_u32] = (EndRow - StartRow + 1) mod 2^32, as
+    in [gvalidate]): an inverted range can count any number of rows, [e+1, e] and [0, 2^32-1] count none.  That an accepted
+    proof has an ordered range and at least one row (the two conjuncts above) rests on the call of celestia-app's
+    [RowProof.Validate] inside [Verify]: without it ([verify_gen_norowcheck]) the proof from which EVERY component was
+    dropped, presented with an inverted or wrapped range and the commitment of the empty list, verifies against every
+    non-empty data root, for every instantiation of the primitives with [SubTreeWidth 0] defined. *)
+Theorem C12_row_count_wraps : forall n e, 0 <= e -> e < n - 1 -> n < 2 ^ 32 ->
+  e < e - n + 1 + 2 ^ 32 < 2 ^ 32 /\ row_count_u32 (e - n + 1 + 2 ^ 32) e = n.
+Proof. exact row_count_wraps. Qed.
+Print Assumptions C12_row_count_wraps.
+
+Theorem C12_norowcheck_accepts_empty_proof :
+  forall (D C T NP MP : Type) (t_empty : T -> bool) (c_empty : C -> bool) (c_eqb : C -> C -> bool) (hfb : list D -> C)
+         (width_of : Z -> option Z) (leaf_ranges : Z -> Z -> Z -> option nat)
+         (vsri : Z -> Z -> NP -> list D -> Z -> D -> option bool) (mverify : MP -> T -> D -> bool)
+         (start_row end_row : Z) (root : T) (w : Z),
+  (start_row = end_row + 1 \/ (start_row = 0 /\ end_row = 2 ^ 32 - 1)) ->
+  t_empty root = false -> c_empty (hfb []) = false -> c_eqb (hfb []) (hfb []) = true -> width_of 0 = Some w ->
+  verify_gen_norowcheck D C T NP MP t_empty c_empty c_eqb hfb width_of leaf_ranges vsri mverify
+    (trimmed D NP MP start_row end_row) root (hfb []) = ROk.
+Proof. exact norowcheck_accepts_empty_proof_ranges. Qed.
+Print Assumptions C12_norowcheck_accepts_empty_proof.
+
+(** concrete witness (table-driven primitives of the non-vacuity example): accepted against two different roots by the
+    variant, refused by the code as it is *)
+Theorem C12_commitment_sound_without_row_validate_refuted :
+  exists (g : gproof N unit N) (root root' com : N),
+    root <> root' /\
+    ex_verify_norowcheck g root com = ROk /\ ex_verify_norowcheck g root' com = ROk /\
+    ~ commitment_sound_conclusion_rows g /\
+    g_roots N unit N g = [] /\ g_row_roots N unit N g = [] /\ g_end_row N unit N g < g_start_row N unit N g /\
+    ex_verify g root com = RErr /\ ex_verify g root' com = RErr.
+Proof. exact commitment_sound_without_row_validate_refuted. Qed.
+Print Assumptions C12_commitment_sound_without_row_validate_refuted.
 
 (** With the symbolic hash a commitment names ONE list of subtree roots: two accepted proofs for the same commitment
     (with equally many subtree roots) carry the same subtree roots, whatever else was swapped in. *)
